@@ -27,7 +27,7 @@ ASSUMPTIONS = [
 
 NAME_TERMINATORS = list(" !^:,;%()-+@#{}[]&<>/|?'")
 TEXT_CHARS = list("abcXYZ0189 _=*") + list("!^:,;%()-+@#{}[]&<>/|?'.")
-HEADERS = ["a", "b", "c name", "d"]
+HEADERS = ["a", "b", "c name", "d", "2021"]  # (a header whose name reads as a number: a name all the same)
 CSVPATH_FIELDS = ["line_number", "count_lines", "count_matches", "count_scans", "total_lines", "identity", "valid", "stopped"]
 
 
@@ -57,7 +57,7 @@ def gen_ref(r):
     if k == "stacklen":
         return ["ref", "variables", "st", "length"]
     if k == "hname":
-        return ["ref", "headers", r.choice(["a", "b", "d"]), None]
+        return ["ref", "headers", r.choice(["a", "b", "d", "2021"]), None]
     if k == "hidx":
         return ["ref", "headers", str(r.choice([0, 1, 3])), None]
     if k == "hquoted":
@@ -155,6 +155,8 @@ def ref_value(c, snap):
         raise KeyError("unspecified")
     if typ == "headers":
         nm = name.strip("'")
+        if nm in snap["headers"]:
+            return snap["line"][snap["headers"].index(nm)]  # a header of that name, whatever the name looks like
         if nm.isdigit():
             return snap["line"][int(nm)]
         return snap["line"][snap["headers"].index(nm)]
@@ -218,7 +220,7 @@ def make_case(seed, shard, i):
     qual = r.choice(["", "", "onmatch", "once", "onmatch.once"])
     rows = [HEADERS]
     for k in range(r.randint(2, 5)):
-        rows.append([r.choice(["A1", "7", " p q", "x,y", "5.5"]), r.choice(["B1", "0", "b b", ""]), r.choice(["C", "c-c", "#z"]), r.choice(["D!", "dd", "9"])])
+        rows.append([r.choice(["A1", "7", " p q", "x,y", "5.5"]), r.choice(["B1", "0", "b b", ""]), r.choice(["C", "c-c", "#z"]), r.choice(["D!", "dd", "9"]), r.choice(["10", "11", "y21"])])
     gate = r.choice(["", "", '#b == "B1"', 'not(#b == "B1")'])
     target = r.choice([None, None, "audit"])
     # an earlier print on the same line that also resolves $.csvpath references, then a component that changes run
